@@ -154,7 +154,8 @@ def judge(module, records, shards=None, timeout=900, xmx="3g", extra_constants="
         path = os.path.join(tmp, "t%d.ndjson" % s)
         with open(path, "w") as f:
             for r in chunk:
-                f.write(json.dumps(r, ensure_ascii=True) + "\n")
+                # records may be handed over as raw JSON lines (large runs keep them unparsed to bound memory)
+                f.write((r if isinstance(r, str) else json.dumps(r, ensure_ascii=True)) + "\n")
         chunks.append(chunk)
         cfg = "SPECIFICATION Spec\nINVARIANT Done\nCHECK_DEADLOCK FALSE\n" + extra_constants
         jobs.append(dict(module="trace/" + module, cfg_text=cfg, workers=1, timeout=timeout,
@@ -173,7 +174,8 @@ def judge(module, records, shards=None, timeout=900, xmx="3g", extra_constants="
         states += res.distinct
         trans += res.generated
         for f in res.printed("FAIL"):
-            fails.append((chunk[f["i"] - 1], f["why"]))
+            rec = chunk[f["i"] - 1]
+            fails.append((json.loads(rec) if isinstance(rec, str) else rec, f["why"]))
     return fails, states, trans
 
 
